@@ -301,10 +301,7 @@ func main() {
 					kind = "edge"
 				}
 			}
-			if sigOf(in) != "neq-empty-list" { // known finding: replayed from the corpus only
-				break
-			}
-			out.Count("regenerated_known_shape", "neq-empty-list")
+			break // (neq-empty-list is fixed in /repo b6731b9: back in the main stream)
 		}
 		if sg := sigOf(in); sg != "" {
 			out.Count("shape_of_fixed_finding", sg) // fixed in /repo b0cce87: back in the main stream
